@@ -182,10 +182,26 @@ func Run(t *testing.T, prop string, defN int,
 		}
 	}()
 
+	// the input being executed is kept in <out>.current (no fsync: it only has to survive a
+	// crash of this process), so that a fatal runtime error (out of memory, stack overflow,
+	// concurrent map access), which no recover can catch, still names its input
+	curf, _ := os.Create(out + ".current")
+	defer func() {
+		if curf != nil {
+			curf.Close()
+			os.Remove(out + ".current")
+		}
+	}()
 	id := 0
 	hangs := 0
 	exec := func(in string) {
 		in = sanitize(in)
+		if curf != nil {
+			b := []byte(in)
+			if _, err := curf.WriteAt(b, 0); err == nil {
+				_ = curf.Truncate(int64(len(b)))
+			}
+		}
 		type res struct{ obs string }
 		ch := make(chan res, 1)
 		go func() {
